@@ -4,12 +4,15 @@ import (
 	"bytes"
 	"encoding/binary"
 	"fmt"
+	"net"
+	"os"
 	"runtime"
 	"sort"
 	"strings"
 	"time"
 
 	"github.com/canopy-network/canopy/lib"
+	"github.com/canopy-network/canopy/lib/crypto"
 	"github.com/canopy-network/canopy/p2p"
 	"google.golang.org/protobuf/proto"
 	"google.golang.org/protobuf/types/known/anypb"
@@ -436,6 +439,100 @@ func runAttributionCase(w *world, claimOther, strict bool) (string, []finding, s
 	}
 }
 
+// runSessionReplaceCase: a multi-packet message from S to D is in flight on a link that stalls after `through`
+// packets' worth of bytes; D loses its state and comes back (a fresh instance with the same identity dials S), so S
+// replaces the session. Whatever the new D receives on the topic must be a message that was sent, whole: the old
+// message may be lost with its session, it must not arrive as a fragment; a message sent afterwards arrives intact.
+func runSessionReplaceCase(packets int, through float64) (string, []finding, string) {
+	dpriv, err := crypto.NewBLS12381PrivateKey()
+	if err != nil {
+		panic(err)
+	}
+	D, S := newNodeWithKey(dpriv), newNode()
+	c1d, c1s := newMemPipe("D", "S")
+	gs := newGatedConn(c1s)
+	meta := &lib.PeerMeta{NetworkId: 1, ChainId: 1}
+	connect := func(d *node, cd net.Conn, cs net.Conn) (lib.ErrorI, lib.ErrorI) {
+		errS := make(chan lib.ErrorI, 1)
+		go func() {
+			errS <- S.p.AddPeer(cs, &lib.PeerInfo{Address: &lib.PeerAddress{NetAddress: "mem://D", PeerMeta: meta}}, false, false)
+		}()
+		eD := d.p.AddPeer(cd, &lib.PeerInfo{IsOutbound: true, Address: &lib.PeerAddress{PublicKey: bytes.Clone(S.pub), NetAddress: "mem://S", PeerMeta: meta}}, false, false)
+		return eD, <-errS
+	}
+	// the returning instance exists before the stall: the new session must arrive while the old one is still waiting
+	// for its write deadline (p2p.WriteTimeout), otherwise the old session is simply gone
+	D2 := newNodeWithKey(dpriv)
+	defer func() {
+		close(gs.release)
+		D.p.Stop()
+		S.p.Stop()
+		if D2 != nil {
+			D2.p.Stop()
+		}
+		c1d.Close()
+		c1s.Close()
+	}()
+	if eD, eS := connect(D, c1d, gs); eD != nil || eS != nil {
+		return "session-replace:first-session-refused", []finding{{"C18:valid-traffic-closed-connection", fmt.Sprint("first session refused: ", eD, eS)}}, ""
+	}
+	big := mkMessage(6, packets*K.MaxDataChunkSize-100)
+	gs.arm(int(through * float64(K.MaxPacketSize)))
+	if e := S.p.PeerSet.SendTo(D.pub, lib.Topic_BLOCK, &lib.StringWrapper{Value: string(big.payload)}); e != nil {
+		return "session-replace:send-refused", nil, e.Error()
+	}
+	select {
+	case <-gs.blocked:
+	case <-time.After(5 * time.Second):
+		return "session-replace:link-never-stalled", nil, "the whole message left before the link stalled"
+	}
+	hadOld := S.p.PeerSet.Has(D.pub)
+	c2d, c2s := newMemPipe("D2", "S")
+	defer func() { c2d.Close(); c2s.Close() }()
+	eD, eS := connect(D2, c2d, c2s)
+	obs := fmt.Sprintf("packets=%d through=%.1f old-session-still-registered=%v second-session: dialler=%v answerer=%v", packets, through, hadOld, eD != nil, eS != nil)
+	if eD != nil || eS != nil {
+		return "session-replace:second-session-refused", nil, obs
+	}
+	small := mkMessage(7, 300)
+	if e := S.p.PeerSet.SendTo(D2.pub, lib.Topic_BLOCK, &lib.StringWrapper{Value: string(small.payload)}); e != nil {
+		return "session-replace:follow-up-send-refused", nil, obs + " " + e.Error()
+	}
+	var fs []finding
+	gotSmall, n := 0, 0
+	bigWire, smallWire := mustMarshal(&lib.StringWrapper{Value: string(big.payload)}), mustMarshal(&lib.StringWrapper{Value: string(small.payload)})
+	deadline := time.After(2500 * time.Millisecond)
+	for done := false; !done; {
+		select {
+		case m := <-D2.p.Inbox(lib.Topic_BLOCK):
+			n++
+			got := m.Message
+			switch {
+			case bytes.Equal(got, smallWire):
+				gotSmall++
+			case bytes.Equal(got, bigWire):
+			default:
+				kind := "neither a sent message nor a piece of one"
+				if len(got) > 0 && bytes.HasSuffix(bigWire, got) {
+					kind = "the TAIL of the message that was in flight on the replaced session"
+				} else if len(got) > 0 && bytes.Contains(bigWire, got) {
+					kind = "a piece of the message that was in flight on the replaced session"
+				}
+				fs = append(fs, finding{"C18:fragment-delivered-after-session-replacement", fmt.Sprintf("the new session delivered %d bytes that are %s (sent: %d bytes and %d bytes)", len(got), kind, len(big.payload), len(small.payload))})
+			}
+		case <-deadline:
+			done = true
+		}
+	}
+	if gotSmall != 1 && len(fs) == 0 {
+		fs = append(fs, finding{"C18:message-after-session-replacement-not-delivered-once", fmt.Sprintf("the message sent on the new session arrived %d times", gotSmall)})
+	}
+	if os.Getenv("C18_DEBUG") != "" {
+		fmt.Fprintf(os.Stderr, "session-replace debug: %s delivered=%d follow-up=%d findings=%v\n", obs, n, gotSmall, fs)
+	}
+	return fmt.Sprintf("session-replace:delivered=%d:follow-up=%d", n, gotSmall), fs, obs
+}
+
 func runSequentialSmall(r *mc.Run, w *world) *seqStats {
 	st := &seqStats{outcomes: map[string]int{}}
 	for t := lib.Topic(0); t <= K.HeartbeatTopic; t++ {
@@ -512,6 +609,24 @@ func runSequentialSmall(r *mc.Run, w *world) *seqStats {
 		}
 		st.malformedCases++
 		st.steps += 3
+		st.outcomes[class]++
+	}
+	for _, sr := range []struct {
+		packets int
+		through float64
+	}{{3, 1.5}, {3, 0.5}, {2, 1.2}} {
+		name := fmt.Sprintf("session-replace:%d:%.1f", sr.packets, sr.through)
+		class, fs, obs := runSessionReplaceCase(sr.packets, sr.through)
+		if len(fs) > 0 {
+			if _, fs2, _ := runSessionReplaceCase(sr.packets, sr.through); len(fs2) == 0 {
+				fs = nil // not reproducible: timing, not a defect
+			}
+		}
+		if len(fs) > 0 {
+			report(r, name, fs[:1], obs)
+		}
+		st.malformedCases++
+		st.steps += 4 + sr.packets
 		st.outcomes[class]++
 	}
 	for _, fq := range []struct {
